@@ -13,6 +13,7 @@ EXPLANATION = (
     "lower-cased. [ISONAME-IDS] the nine field ids IsoName reads exist in the database's isoAddressClaim with the kind each getter expects, each "
     "attribute is filled from the field of the same name, device instance = upper << BitLength(lower) | lower. UNDECIDED: history-level 'most recent', "
     "timing of the window."
+    ' MAP-REPLACE / MAP-ATTACH / MAP-KEY are decided on a history run by the interpreted decode path (rules_decoder.map_history: claim from 7, message from 7, message from unclaimed 9, claim from 9, claim from 11 with the NAME of 7, the same claim from 7 again, a claim with another NAME from 7, message from 7; also with the claim PGN excluded); the readings of particular spellings only confirm, except the hand-over of the identity through _decode_fast_message, which stays a rule. MFR-GUARD also covers both lists configured at once.'
 )
 ASSUMPTIONS = ["CPython ast parser", "sym.py guard extraction, teval.py evaluation", "canboat.json is the oracle for field ids and kinds"]
 
